@@ -1,6 +1,7 @@
 import RModel.Driver.State
 import RModel.Impl.BSI
 import RModel.Impl.BSI32
+import RModel.Impl.BSI64Ops
 /-!
 Plane-level (L2) tracking of roaring64 bit-sliced indexes: next to the column→value map used by `Driver/Bsi.lean`,
 the checker replays `bnew` / `bset` / `bsetbig` / `bclr` / `bclone` / `bretainset` on the plane model `Impl/BSI.lean`
@@ -9,6 +10,16 @@ the checker replays `bnew` / `bset` / `bsetbig` / `bclr` / `bclone` / `bretainse
 * `bcmp …`     — the result of the modelled plane-algebra fast path `BSI.compareInt64Value` with the Go result.
 An operation that is not modelled at plane level forgets the plane state of the indexes it changes (they are simply no
 longer compared).
+
+Since `Impl/BSI64Ops.lean` (theorems: `RProofs/BSI64Ops.lean`) the 64-bit tracker also replays
+`bsetmany/bsetmanybig` (`SetBigMany`), `bretain` (`Retain`), `bparor` (`ParOr`, sign extension), `badd` (`Add`), `binc/bincall`
+(`Increment`: ripple carry, widening), `bopt` (`RunOptimize`: no change of the sets), `bmarsh` (`MarshalBinary`/`UnmarshalBinary`:
+the sign plane is dropped), `bstream` (`WriteTo`/`ReadFrom`), both with a fresh or a previously used receiver, and `btwc`
+(`TransposeWithCounts`) for ONE worker — see `trackBsi64Ops`; and the plane model also answers `beq` (`BatchEqual`: cube /
+trie path), `btrans` / `bitrans` (`Transpose`, `IntersectAndTranspose`), `bgetbig`, `bsumbig` — see `checkBsi64Ops`.
+What still forgets an index: an operation whose participant is the target itself or is not tracked, `btwc` with more than one
+worker (the batch results are added in goroutine delivery order), `bstream` into a fixed-width receiver that is wider than the
+source (the plane count of `NewBSI(max, min)` is no longer known afterwards).
 
 The second half of the file does the same for 32-bit indexes (`BitSliceIndexing.BSI`, plane model `Impl/BSI32.lean`, hook
 `BitSliceIndexing.VerifBSIPlanes`): `bnew/bset/bsetmany/bclr/bclone/bretainset/bmarsh/bparor/badd/binc/bincall/bopt` are
@@ -235,6 +246,114 @@ def subjectIs32 (st : St) (cmd : List String) : Bool :=
   | [_, a0] => isBsi32 st a0
   | _ => false
 
+/-! ### 64-bit indexes, continued: the operations of `Impl/BSI64Ops.lean`
+
+`bsetmany/bsetmanybig/bretain/bparor/badd/binc/bincall/bopt/bmarsh/bstream/btwc` are replayed on the plane model instead of
+forgetting the index.  `st` is the state AFTER the map-level family handled the line; a command the harness skipped
+(undefined name, nil found-set where none is allowed, mixed implementations, malformed number) leaves the plane state alone. -/
+
+/-- the name denotes a 64-bit index (map-level state) -/
+def isBsi64 (st : St) (s : String) : Bool :=
+  match st.bsi[s]? with
+  | some b => b.is64
+  | none => false
+
+/-- found-set token of a 64-bit index: outer `none` = undefined; `some none` = nil -/
+def fs64? (st : St) (b : RModel.BSI) (tok : String) : Option (Option BSet) :=
+  if tok == "-" then some none else if tok == "@" then some (some b.ebm) else (st.bm64[tok]?).map some
+
+/-- the receiver `newLike(s)` of a two-argument `bmarsh` / `bstream`: `NewBSI(MaxValue, MinValue)` never has more planes
+than the index it was derived from, so for the plane count of the result a one-plane receiver stands for it -/
+def freshRecv : RModel.BSI := BSI.new 0 0
+
+/-- state update for the commands modelled in `Impl/BSI64Ops.lean` whose subject is NOT a 32-bit index; `none` = not such a
+command (then `trackBsi64L2` decides). -/
+def trackBsi64Ops (st : St) (cmd : List String) : Option St :=
+  let put (n : String) (b : RModel.BSI) (fixed : Bool) : Option St := some { st with bsiL2 := st.bsiL2.insert n (b, fixed) }
+  let forget (n : String) : Option St := some { st with bsiL2 := st.bsiL2.erase n }
+  let keepSt : Option St := some st
+  match cmd with
+  | ["bsetmany", s, f, v] | ["bsetmanybig", s, f, v] =>
+    match st.bsiL2[s]?, v.toInt? with
+    | some (b, fixed), some val =>
+      match fs64? st b f with
+      | some (some x) =>
+        if cmd.head? == some "bsetmany" && !inI64 val then keepSt
+        else put s (if fixed then b.setManyFixed x val else b.setMany x val) fixed
+      | _ => keepSt
+    | _, _ => keepSt
+  | ["bretain", s, f] =>
+    match st.bsiL2[s]? with
+    | some (b, fixed) =>
+      match fs64? st b f with
+      | some (some x) => put s (b.retain x) fixed
+      | _ => keepSt
+    | none => keepSt
+  | "bparor" :: s :: w :: ts =>
+    match st.bsiL2[s]?, w.toNat? with
+    | some (b, fixed), some wn =>
+      if wn > 64 || ts.isEmpty || !(ts.all (isBsi64 st)) then keepSt
+      else if ts.contains s then forget s
+      else match ts.mapM (fun t => (st.bsiL2[t]?).map (·.1)) with
+        | some bs => put s (b.parOr bs) fixed
+        | none => forget s
+    | _, _ => keepSt
+  | ["badd", s, t] =>
+    match st.bsiL2[s]? with
+    | some (b, fixed) =>
+      if !isBsi64 st t then keepSt
+      else if s == t then forget s
+      else match st.bsiL2[t]? with
+        | some (o, _) => put s (b.addIndex o) fixed
+        | none => forget s
+    | none => keepSt
+  | ["binc", s, f] =>
+    match st.bsiL2[s]? with
+    | some (b, fixed) =>
+      match fs64? st b f with
+      | some fs => put s (b.increment fs) fixed
+      | none => keepSt
+    | none => keepSt
+  | ["bincall", s] =>
+    match st.bsiL2[s]? with
+    | some (b, fixed) => put s (b.increment (some b.ebm)) fixed
+    | none => keepSt
+  | ["bopt", _] => keepSt                                   -- RunOptimize: representation only
+  | ["bmarsh", t, s] =>
+    match st.bsiL2[s]? with
+    | some (b, fixed) => put t (BSI.unmarshalFrom freshRecv b) fixed
+    | none => if isBsi64 st s then forget t else keepSt
+  | ["bstream", t, s] =>
+    match st.bsiL2[s]? with
+    | some (b, fixed) => put t (BSI.streamFrom freshRecv b) fixed
+    | none => if isBsi64 st s then forget t else keepSt
+  | ["bmarsh", t, s, u] | ["bstream", t, s, u] =>
+    -- the map-level family has already consumed `u` when the command was accepted
+    if t == u then forget t else
+    match st.bsi[u]? with
+    | some _ => keepSt       -- skipped (same name / other kind): nothing happened
+    | none =>
+      let st' : St := { st with bsiL2 := (st.bsiL2.erase u).erase t }
+      match st.bsiL2[s]?, st.bsiL2[u]? with
+      | some (b, _), some (r, rfixed) =>
+        if cmd.head? == some "bmarsh" then some { st' with bsiL2 := st'.bsiL2.insert t (BSI.unmarshalFrom r b, rfixed) }
+        else if rfixed && b.planes.length < r.planes.length then some st'   -- fewer planes than `NewBSI(max, min)`: not followed
+        else some { st' with bsiL2 := st'.bsiL2.insert t (BSI.streamFrom r b, rfixed) }
+      | _, _ => some st'
+  | ["btwc", t, s, w, f, g] =>
+    match st.bsiL2[s]?, w.toNat? with
+    | some (b, _), some wn =>
+      match fs64? st b f, fs64? st b g with
+      | some fs, some gs =>
+        if wn == 1 then
+          match b.transposeWithCounts1 fs gs with
+          | some r => put t r false
+          | none => forget t
+        else forget t
+      | _, _ => keepSt
+    | _, _ => if isBsi64 st s then forget t else keepSt
+  | _ => none
+
 /-- state update only (no verdict): called for every line after the command families -/
 def trackBsiL2 (st : St) (cmd : List String) : St :=
   match trackBsi32L2 st cmd with
@@ -242,7 +361,10 @@ def trackBsiL2 (st : St) (cmd : List String) : St :=
   | none =>
     -- a command on a 32-bit index that the 32-bit tracker does not know (64-bit-only operations: skipped by the harness,
     -- pure queries) must never be replayed on the 64-bit plane model
-    if subjectIs32 st cmd then st else trackBsi64L2 st cmd
+    if subjectIs32 st cmd then st
+    else match trackBsi64Ops st cmd with
+      | some st' => st'
+      | none => trackBsi64L2 st cmd
 
 /-- plane-level checks of queries on a tracked 32-bit index (state BEFORE the line); `none` = not such a line -/
 def checkBsi32L2 (st : St) (cmd : List String) (got : String) : Option Verdict :=
@@ -314,10 +436,62 @@ def checkBsi32L2 (st : St) (cmd : List String) (got : String) : Option Verdict :
     | none => some none
   | _ => none
 
+/-- plane-level checks of queries on a tracked 64-bit index (state BEFORE the line) answered by `Impl/BSI64Ops.lean` -/
+def checkBsi64Ops (st : St) (cmd : List String) (got : String) : Verdict :=
+  let first := (got.splitOn " ").headD ""
+  let verdict (what exp act : String) : Verdict :=
+    if got.startsWith "skip" || exp == act then none else some ("plane model (Impl/BSI64Ops." ++ what ++ "): " ++ exp)
+  let idx (s : String) : Option RModel.BSI := if isBsi64 st s then (st.bsiL2[s]?).map (·.1) else none
+  match cmd with
+  | "beq" :: _ :: s :: _ :: vals =>
+    match idx s, vals.mapM (fun (v : String) => v.toInt?) with
+    | some b, some vs =>
+      if vs.all inI64 then
+        match b.batchEqual vs with
+        | some r => verdict "batchEqual" (digest r) first
+        | none => none
+      else none
+    | _, _ => none
+  | ["btrans", _, s] =>
+    match idx s with
+    | some b =>
+      match b.transpose none with
+      | some r => verdict "transpose" (digest r) first
+      | none => none
+    | none => none
+  | ["bitrans", _, s, _, f] =>
+    match idx s with
+    | some b =>
+      match fs64? st b f with
+      | some fs =>
+        match b.transpose fs with
+        | some r => verdict "transpose" (digest r) first
+        | none => none
+      | none => none
+    | none => none
+  | ["bgetbig", s, c] =>
+    match idx s, c.toNat? with
+    | some b, some col =>
+      if col < U64 then
+        verdict "getValue" (match b.getValue col with | some v => toString v ++ " true" | none => "nil false") got
+      else none
+    | _, _ => none
+  | ["bsumbig", s, f] =>
+    match idx s with
+    | some b =>
+      match fs64? st b f with
+      | some fs => let r := b.sumBigValues fs; verdict "sumBigValues" (toString r.1 ++ " " ++ toString r.2) got
+      | none => none
+    | none => none
+  | _ => none
+
 /-- extra plane-level checks on lines the map-level family already accepted -/
 def checkBsiL2 (st : St) (cmd : List String) (got : String) : Verdict :=
   match checkBsi32L2 st cmd got with
   | some v => v
-  | none => checkBsi64L2 st cmd got
+  | none =>
+    match checkBsi64L2 st cmd got with
+    | some m => some m
+    | none => checkBsi64Ops st cmd got
 
 end RModel.Driver
